@@ -85,7 +85,7 @@ def run(ctx):
         walkers_ = ('compress::Compress::check_compressed_name', DS + '::check_uncompressed_name')
         seen_, ext_, ind_, par_ = facts.reach([k for k in per_record if facts.fn(k) is not None], avoid=walkers_)
         for p_ in sorted(ext_):
-            okc = p_ in ctab['constant']
+            okc = p_ in ctab['constant'] or p_.startswith(tuple(ctab.get('constant_prefix', [])))
             ctx.instance('C18.calls', 'per-record work calls %s: %s' % (p_, ctab['constant'].get(p_, 'not in tables/extern_cost.json')), ok=okc)
             if not okc:
                 grow = any(p_.endswith(sfx) or (sfx + '::') in p_ for sfx in ctab['linear_or_growing_suffix'])
